@@ -48,8 +48,10 @@ Lemma segment_partition_ok f cf df :
   input_wf ST f = true -> segment ST f = SOk cf df -> partition ST f cf df.
 Proof. apply segment_partition, ST_ok. Qed.
 
-(* the finding: PPD batches of classes 225, 220, 200 numbered 1, 2, 3 — a valid file that
-   SegmentFile rejects because the credit file would carry the numbers 2, 2 *)
+(* the former finding segment:batch-number-collision (fixed in the repository: split batches keep
+   the number of the batch they come from): PPD batches of classes 225, 220, 200 numbered 1, 2, 3.
+   Before the fix the credit file carried the numbers 2, 2 and SegmentFile failed; now the
+   outputs carry 2, 3 and 1, 3 *)
 Definition collision_file : sfile :=
   mksf 121042882 231380104
        [ mksb false 225 1 121042882 0 200 [mkentry 27 200 1%N 1%N]
@@ -57,9 +59,12 @@ Definition collision_file : sfile :=
        ; mksb false 200 3 121042882 101 201 [mkentry 22 101 3%N 1%N; mkentry 27 201 4%N 2%N] ]
        [] 201 401.
 
-Lemma segment_collision :
+Lemma segment_collision_fixed :
   validate ST collision_file = None /\ input_wf ST collision_file = true
-  /\ segment ST collision_file = SErr (EOutput VAscending).
+  /\ match segment ST collision_file with
+     | SOk cf df => map sb_num (sf_batches cf) = [2; 3] /\ map sb_num (sf_batches df) = [1; 3]
+     | SErr _ => False
+     end.
 Proof. vm_compute. repeat split. Qed.
 
 (* non-vacuity: a valid file with a mixed, a credits-only standard batch and a mixed IAT batch that segments *)
@@ -91,6 +96,6 @@ Lemma segment_succeeds_ok f :
   exists cf df, segment ST f = SOk cf df.
 Proof. apply segment_succeeds, ST_ok. Qed.
 
-(* the side condition holds for the example and is exactly what the collision witness violates *)
-Example numbers_ok_examples : numbers_ok ST ex_file = true /\ numbers_ok ST collision_file = false.
+(* the side condition holds for the example and for the former collision witness *)
+Example numbers_ok_examples : numbers_ok ST ex_file = true /\ numbers_ok ST collision_file = true.
 Proof. vm_compute. split; reflexivity. Qed.
